@@ -36,6 +36,8 @@ func init() {
 			Req: []string{"is($elem, string)", "def($s, $elem.(string), 0)", "inloop($elem, $aud)"}},
 		{ID: "E1.time.forms", Fn: "oidc.(*Time).UnmarshalJSON", P: []string{"ts", "data"}, Kind: "ret ok", Min: 1,
 			Req: []string{"ok(json.Unmarshal($data, &$v))", "is($v, float64) || (is($v, string) && ok(time.Parse(time.RFC3339, _))) || nil($v)"}},
+		{ID: "E1.introspection.username-fallback-only-when-unset", Fn: "oidc.(*IntrospectionResponse).MarshalJSON", P: []string{"i"}, Kind: "store", Pat: "store($i.Username, $i.PreferredUsername)", Opt: true, Max: 1,
+			Why: "the registered username claim is replaced by preferred_username only when it is not set (a set registered claim survives encoding)", Req: []string{`eq($i.Username, "")`}},
 		{ID: "E1.locales.only-wellformed-entries", Fn: "oidc.ParseLocales", P: []string{"locales"}, Kind: "call", Pat: "append($out, $tag)", Max: 1,
 			Why: "tolerant decoding drops an ill-formed or undefined entry; it never keeps a tag the document did not contain (a parsed prefix)",
 			Req: []string{"def($tag, language.Parse($locale), 0)", "ok(language.Parse($locale))", "false($tag.IsRoot())", "inloop($locale, $locales)"}},
